@@ -389,7 +389,9 @@ pub fn prices_strategy() -> impl Strategy<Value = PricesSpec> {
         98_000_000_000_000u128..=102_000_000_000_000,
         prop_oneof![3 => Just(0u128), 2 => 1u128..=100],
         prop_oneof![3 => Just(0u128), 2 => 1u128..=20],
-        prop_oneof![3 => Just(None), 1 => (1_000_000_000_000u128..=100_000_000_000_000).prop_map(Some)],
+        // synthetic index tokens: same magnitude as the pool tokens, or a much larger unit price (few-decimals
+        // index such as BTC against a 6-decimals stable: one index unit is worth 10..1000 collateral units)
+        prop_oneof![6 => Just(None), 2 => (1_000_000_000_000u128..=100_000_000_000_000).prop_map(Some), 1 => (1_000_000_000_000_000u128..=100_000_000_000_000_000).prop_map(Some)],
     )
         .prop_map(|(long_mid, short_mid, ls, ss, synthetic)| {
             let long = spread(long_mid, ls);
